@@ -40,6 +40,10 @@ def paths(term, xf=()):
         for t in term[1]:
             yield from paths(t, xf)
         return
+    if tag == 'orelse':
+        yield from paths(term[1], xf)
+        yield from paths(term[2], xf)
+        return
     if tag == 'field':
         yield ('field', adt_short(term[2]) + '.' + term[3]), xf
         return
@@ -97,6 +101,8 @@ def ctrl_origins(term, inside=False):
     elif tag == 'list':
         for a in term[1]:
             out |= ctrl_origins(a)
+    elif tag == 'orelse':
+        out |= ctrl_origins(term[1]) | ctrl_origins(term[2])
     elif tag in ('fmt', 'ctor', 'op', 'call'):
         for a in term[2]:
             out |= ctrl_origins(a)
